@@ -100,4 +100,12 @@ def Quat.ctorSV {α : Type} (a : Quat α) : (Quat α) :=
 def Quat.narrowCtor {α : Type} {β : Type} (cast : β → α) (a : Quat β) : (Quat α) :=
   ⟨(cast a.r), ⟨(cast a.v.x), (cast a.v.y), (cast a.v.z)⟩⟩
 
+/-- extracted from the C++ template at T = Sym; 1 path(s) -/
+def Quat.assign {α : Type} (a : Quat α) (b : Quat α) : (Quat α) :=
+  ⟨b.r, ⟨b.v.x, b.v.y, b.v.z⟩⟩
+
+/-- extracted from the C++ template at T = Sym; 1 path(s) -/
+def Quat.copyCtor {α : Type} (a : Quat α) : (Quat α) :=
+  ⟨a.r, ⟨a.v.x, a.v.y, a.v.z⟩⟩
+
 end ImathVerif.Gen
